@@ -233,6 +233,23 @@ class Gen:
         return etree.QName(r.choice(['urn:verif:a', 'http://example.com/ns', default_ns_helper.PM.namespace]),
                            r.choice(['Foo', 'bar1', 'X_y']))
 
+    def falsy(self, p):
+        """a falsy value of the member's type when the member has a truthy implied value (0, False, 0.0, ''), else None"""
+        imp = p._implied_py_value
+        if imp is None or not imp or isinstance(imp, enum.Enum):
+            return None
+        for cand in (False if isinstance(imp, bool) else None, 0 if isinstance(imp, int) and not isinstance(imp, bool) else None,
+                     decimal.Decimal(0) if isinstance(imp, decimal.Decimal) else None, 0.0 if isinstance(imp, float) else None,
+                     '' if isinstance(imp, str) else None):
+            if cand is None:
+                continue
+            try:
+                p._converter.check_valid(cand)
+                return cand
+            except Exception:  # noqa: BLE001
+                continue
+        return None
+
     def scalar(self, conv, for_list=False):
         r = self.rng
         if isinstance(conv, dc.ListConverter):
@@ -306,8 +323,15 @@ class Gen:
             if optional:
                 want = r.random() < (0.6 if depth < self.max_depth else 0.25)
             v = None
+            fz = self.falsy(p) if kind in ('attr', 'text') else None
+            if fz is not None and r.random() < 0.5:
+                want = True
+                self.stats['falsy'] = self.stats.get('falsy', 0) + 1
+            else:
+                fz = None
             if kind == 'attr':
                 v = (self.qname() if e['conv'] == 'QName' else self.scalar(p._converter)) if want else None
+                v = fz if fz is not None else v
             elif kind == 'attrList':
                 v = [self.scalar(p._converter, True) for _ in range(r.randint(0, 3))] if want else []
             elif kind == 'text':
@@ -318,6 +342,7 @@ class Gen:
                                                               '2001-02-03T04:05:06.5+02:00'])) if want else None
                 else:
                     v = self.scalar(p._converter) if want else None
+                    v = fz if fz is not None else v
             elif kind == 'raw':
                 if e['style'] == 'ext':
                     v = xs.ExtensionLocalValue([self.element() for _ in range(r.randint(1, 2))]) if (want and r.random() < 0.3) else None
@@ -575,6 +600,116 @@ class Enc:
         return out
 
 
+def foreign_rewrite(enc: Enc, node, variant: str):
+    """the same infoset as `node`, written the way another XML stack might: 'local' = every element declares the prefixes
+    it uses on itself (the same prefix names re-bound from element to element), 'renamed' = other prefix names on the root,
+    'default' = the element's own name space is the default name space. QName-valued attributes / text are re-prefixed."""
+    root_map = {}
+
+    def ns_of(name):
+        return etree.QName(name).namespace
+
+    def build(el, parent, depth):
+        needed = []
+        def need(ns):
+            if ns and ns not in needed:
+                needed.append(ns)
+        need(ns_of(el.tag))
+        qvals = {}
+        for k, v in el.attrib.items():
+            need(ns_of(k))
+            if k in enc.qattrs:
+                c = enc._resolve(v, el.nsmap)
+                qvals[k] = c
+                need(ns_of(c))
+        qtext = None
+        if el.tag in enc.qtags and el.text:
+            qtext = [enc._resolve(t, el.nsmap) for t in el.text.split()]
+            for c in qtext:
+                need(ns_of(c))
+        if variant == 'local':
+            nsmap = {f'p{(i + depth) % 3}{i}': ns for i, ns in enumerate(needed)}
+        elif variant == 'default':
+            own = ns_of(el.tag)
+            nsmap = {None: own} if own else {}
+            nsmap.update({f'd{i}': ns for i, ns in enumerate(needed) if ns != own or any(ns_of(k) == own for k in el.attrib)})
+        else:
+            for ns in needed:
+                root_map.setdefault(ns, f'q{len(root_map)}')
+            nsmap = dict((v, k) for k, v in root_map.items()) if parent is None else None
+        new = etree.Element(el.tag, nsmap=nsmap) if parent is None else etree.SubElement(parent, el.tag, nsmap=nsmap)
+        eff = new.nsmap
+
+        def prefixed(c):
+            q = etree.QName(c)
+            if q.namespace is None:
+                return q.localname
+            if variant == 'default' and eff.get(None) == q.namespace:
+                return q.localname
+            pre = next((p for p, ns in eff.items() if ns == q.namespace and p is not None), None)
+            if pre is None:
+                raise KeyError(q.namespace)
+            return f'{pre}:{q.localname}'
+        for k, v in el.attrib.items():
+            new.set(k, prefixed(qvals[k]) if k in qvals else v)
+        new.text = ' '.join(prefixed(c) for c in qtext) if qtext is not None else el.text
+        for ch in el:
+            if isinstance(ch.tag, str):
+                build(ch, new, depth + 1)
+        return new
+
+    if variant == 'renamed':
+        # two passes: collect all name spaces first so that the root can declare them
+        def collect(el):
+            for ns in [ns_of(el.tag)] + [ns_of(k) for k in el.attrib]:
+                if ns:
+                    root_map.setdefault(ns, f'q{len(root_map)}')
+            for k, v in el.attrib.items():
+                if k in enc.qattrs:
+                    ns = ns_of(enc._resolve(v, el.nsmap))
+                    if ns:
+                        root_map.setdefault(ns, f'q{len(root_map)}')
+            if el.tag in enc.qtags and el.text:
+                for t in el.text.split():
+                    ns = ns_of(enc._resolve(t, el.nsmap))
+                    if ns:
+                        root_map.setdefault(ns, f'q{len(root_map)}')
+            for ch in el:
+                if isinstance(ch.tag, str):
+                    collect(ch)
+        collect(node)
+    return etree.fromstring(etree.tostring(build(node, None, 0)))
+
+
+def foreign_oracle(ctx, tab: Table, enc: Enc, obj, node, case, variant):
+    """a document with the same content written by a foreign stack must be read to the same value"""
+    key = sh.class_key(type(obj))
+    try:
+        doc = foreign_rewrite(enc, node, variant)
+    except Exception:  # noqa: BLE001
+        ctx.count('foreign:rewrite-failed')
+        return
+    if enc.xml(doc) != enc.xml(node):
+        ctx.count('foreign:rewrite-not-equivalent')     # harness problem, never blame the implementation for it
+        return
+    ctx.count('foreign:' + variant)
+    try:
+        back = parse_node(type(obj), doc)
+    except Exception as ex:  # noqa: BLE001
+        tb = ex.__traceback__
+        while tb.tb_next is not None:
+            tb = tb.tb_next
+        site = tb.tb_frame.f_code.co_qualname if hasattr(tb.tb_frame.f_code, 'co_qualname') else tb.tb_frame.f_code.co_name
+        ctx.fail(f'foreign-read-raises:{variant}:{site}', f'{key}: a document with locally declared / renamed / default name space prefixes '
+                 f'(same infoset as the library output) cannot be read: {type(ex).__name__}: {str(ex)[:200]}',
+                 {**case, 'variant': variant, 'xml': etree.tostring(doc).decode()})
+        return
+    if canon(back) != canon(obj):
+        where, u, w = member_of_diff(obj, back)
+        ctx.fail(f'foreign-read-differs:{variant}:{where}', f'{key}: the {variant} variant of its own XML is read to a different value at {where}',
+                 {**case, 'variant': variant, 'xml': etree.tostring(doc).decode()})
+
+
 def kind_tokens(enc: Enc, tab: Table, p, e) -> list:
     k = e['kind']
     if k == 'attr':
@@ -797,6 +932,35 @@ def innermost_class(obj, path_names):
     return type(obj).__name__
 
 
+def public_problems(obj, path=''):
+    """what an API user reads: `getattr(obj, name)` must be the stored value when one is present (also a falsy one) and the
+    declared implied value when the member is absent; recursively. Returns [(path, stored, public, expected)]."""
+    res = []
+    for name, p in sh.class_props(type(obj)):
+        stored = sh.actual(obj, p)
+        here = f'{path}.{name}' if path else name
+        if isinstance(p, (xs.ExtensionNodeProperty, xs._AttributeListBase, xs._ElementListProperty)):
+            pub = stored          # __get__ of these kinds creates and stores a list on first read: read directly
+        else:
+            try:
+                pub = getattr(obj, name)
+            except Exception as ex:  # noqa: BLE001
+                res.append((here, stored, f'<{type(ex).__name__}>', stored))
+                continue
+        expected = stored if stored is not None else p._implied_py_value
+        if sh.is_value_object(stored):
+            if pub is not stored:
+                res.append((here, type(stored).__name__, type(pub).__name__, 'the stored object'))
+            res += public_problems(stored, here)
+        elif isinstance(stored, list):
+            for i, item in enumerate(stored):
+                if sh.is_value_object(item):
+                    res += public_problems(item, f'{here}[{i}]')
+        elif canon(pub) != canon(expected) or type(pub) is not type(expected) and not isinstance(pub, type(expected)):
+            res.append((here, stored, pub, expected))
+    return res
+
+
 def oracle(ctx, tab: Table, obj, case):
     """the property statement on one instance; True when everything holds"""
     key = sh.class_key(type(obj))
@@ -820,13 +984,14 @@ def oracle(ctx, tab: Table, obj, case):
             ctx.fail(f'read-raises:{key}:{_exc_sig(ex)}', f'{key}: from_node of its own XML ({how}) raises {type(ex).__name__}: {str(ex)[-300:]}',
                      {**case, 'xml': text.decode()})
             return False
-        for name, p in sh.class_props(type(back)):
-            if sh.actual(back, p) is None and p._implied_py_value is not None:
-                ctx.count('oracle:implied-checked')
-                if getattr(back, name) != p._implied_py_value:
-                    ctx.fail(f'implied:{key}.{name}', f'{key}.{name} is absent but reads as {getattr(back, name)!r} instead of the implied '
-                             f'{p._implied_py_value!r}', case)
-                    ok = False
+        ctx.count('oracle:public-read-checked')
+        for where, stored, pub, expected in public_problems(back)[:3]:
+            member = '.'.join(where.replace('[', '.').split('.')[-1:])
+            owner = type(back).__name__ if '.' not in where else where.rsplit('.', 1)[0].split('.')[-1].split('[')[0]
+            ctx.fail(f'public-read:{owner}.{member}', f'{key}: reading {where} through the attribute gives {pub!r}; the XML / the stored value says '
+                     f'{stored!r} (expected {expected!r}: the stored value when present, the implied value when absent)',
+                     {**case, 'xml': text.decode()})
+            ok = False
         got = canon(back)
         if got != want:
             where, u, w = member_of_diff(obj, back)
@@ -942,7 +1107,9 @@ def run(ctx):
             ops.append((f'w {ci} {enc.nid(tag)} ' + ' '.join(vt), 'err', case))
             continue
         ops.append((f'w {ci} {enc.nid(tag)} ' + ' '.join(vt), 'ok ' + ' '.join(enc.xml(node)), case))
-        ops.append((f't {ci} ' + ' '.join(vt), None, {**case, 'oracle_ok': ok}))      # is the value in the theorems' domain (WT)?
+        ops.append((f't {ci} ' + ' '.join(vt), None, {**case, 'oracle_ok': ok}))
+        if ok:
+            foreign_oracle(ctx, tab, enc, obj, node, case, ('local', 'renamed', 'default')[k % 3])      # is the value in the theorems' domain (WT)?
         re_node = etree.fromstring(etree.tostring(node))
         try:
             back = parse_node(type(obj), re_node)
